@@ -455,7 +455,7 @@ impl Suite for Grid {
 pub struct Scaled {
     pub max_k: u32,
 }
-pub const SCALED_SHAPES: u64 = 17;
+pub const SCALED_SHAPES: u64 = 18;
 
 impl Suite for Scaled {
     fn len(&self) -> u64 {
@@ -579,6 +579,19 @@ impl Suite for Scaled {
                 let b = format!("const Table : array [ 0 .. {} ] of Integer = ( {} ) ;\n", n - 1, elems.join(" , "));
                 let meta = serde_json::json!({"prog": {"marks": [], "nplain": 0, "regions": [], "alts": [b], "decorated": 0, "idents": []}});
                 return Case { text: a, well_formed: true, label: format!("scaled:shape{shape}:k{k}"), wrap_hint: None, meta };
+            }
+            17 => {
+                // one long logical line (2k + arguments) with a conditional section in its middle whose alternatives have the
+                // same number of tokens: the lines of the two passes differ only far from both ends
+                t.push_str("Bar(");
+                for j in 0..k {
+                    t.push_str(&format!("A{j}, "));
+                }
+                t.push_str("{$IFDEF X}Left(1){$ELSE}Right(2){$ENDIF}");
+                for j in 0..k {
+                    t.push_str(&format!(", B{j}"));
+                }
+                t.push_str(");\n");
             }
             13 => {
                 // k nested expression directives, none of them closed (the scanner must not re-scan the tail once per level)
@@ -961,7 +974,8 @@ const ML_CONTAINERS: [(&str, &str, &str, &str); 5] = [
 ];
 const ML_SUFFIXES: [&str; 4] = ["", ".format(aaaaaaaa, b)", ".Trim", " + Foo(1, 2) + Another(3)"];
 /// 1000: the first interior line is indented LESS than the closing quotes (the literal cannot be re-indented)
-const ML_SHIFTS: [i32; 6] = [0, 44, 3, -2, 90, 1000];
+/// 2000: text in front of the closing quotes (the literal is skipped by the re-indentation)
+const ML_SHIFTS: [i32; 7] = [0, 44, 3, -2, 90, 1000, 2000];
 
 impl MlShapes {
     fn dims(i: u64) -> (usize, usize, Vec<usize>, Vec<usize>) {
@@ -1032,6 +1046,15 @@ impl Suite for MlShapes {
                 if shift == 1000 {
                     let cut = line.len() - line.trim_start_matches(' ').len();
                     text.push_str(if lineno == 1 { &line[cut.min(2)..] } else { line });
+                } else if shift == 2000 {
+                    if line.trim_start().starts_with("\'\'\'") {
+                        let cut = line.len() - line.trim_start_matches(' ').len();
+                        text.push_str(&line[..cut]);
+                        text.push('b');
+                        text.push_str(&line[cut..]);
+                    } else {
+                        text.push_str(line);
+                    }
                 } else if shift >= 0 {
                     if !line.trim().is_empty() {
                         text.push_str(&" ".repeat(shift as usize));
